@@ -147,6 +147,33 @@ impl Chan {
         }
     }
 
+    // ---- equivalent spellings of one test ----
+    pub fn syn_len_good(&mut self, d: &[u8]) {
+        if d.len() == 0 {
+            return;
+        }
+        self.scratch.extend_from_slice(d);
+    }
+    pub fn syn_len_bad(&mut self, d: &[u8]) {
+        if d.len() == 1 {
+            return;
+        }
+        self.scratch.extend_from_slice(d);
+    }
+    pub fn syn_opt_good(&mut self, o: Option<u8>) {
+        if let None = o {
+            return;
+        }
+        self.dispatch();
+    }
+    pub fn syn_opt_bad(&mut self, o: Option<u8>, p: Option<u8>) {
+        if let None = p {
+            return;
+        }
+        let _ = o;
+        self.dispatch();
+    }
+
     // ---- captured variables resolve to the enclosing frame's locals ----
     pub fn capture(&mut self, d: &[u8]) {
         let mut over = false;
